@@ -157,7 +157,8 @@ def random_histories(tier, rnd, n):
             else:
                 x = rnd.choice(controls)     # a symbol without any collision: edits of it must not move anything either
                 e = {"x": x, "kind": kind_of(x), "level": "control", "collide": []}
-            if any(e["x"] == s["x"] or e["x"] in s["collide"] or s["x"] in e["collide"] for s in syms):
+            # two edited symbols must not be readings of each other ('ay' next to a prefixable 'y' is atto-y)
+            if any(e["x"].endswith(s["x"]) or s["x"].endswith(e["x"]) or e["x"] in s["collide"] or s["x"] in e["collide"] for s in syms):
                 continue
             syms.append(dict(e, **_own_spec(0, rnd)))
         present = [s["kind"].startswith("table") for s in syms]
